@@ -548,8 +548,12 @@ def r2_namesakes(rule, root=None):
             if lt.startswith("self.constant(op.eval("):
                 want = "self.constant(op.eval(%s))" % ",".join("%s.0" % cb.get(p) for p in params[:nargs])
                 fold = fold or lt == want
-            if lt == "self.ops.insert(Op::%s(op,%s))" % (ctor, ",".join(params[:nargs])):
+            elif lt == "self.ops.insert(Op::%s(op,%s))" % (ctor, ",".join(params[:nargs])):
                 intern = True
+            elif A.strip(leaf).get("k") not in ("Return", "Macro"):
+                # the generic builder is where *every* node of that arity is made: a rewrite here is not one of
+                # the vetted per-opcode identities (R1) and applies to every caller, import included
+                rule.bad("%s|rewrite|%s" % (fname, lt[:40]), "%s builds `%s` for some operands instead of folding or interning Op::%s(op, ..): an algebraic rewrite in the generic builder is outside the vetted identities (e.g. sqrt(square(x)) is not |x| when x*x underflows)" % (fname, A.unparse(leaf)[:60], ctor), A.where(fn, leaf))
         if fold and intern:
             rule.ok("%s folds constants with op.eval (operands in order) and otherwise interns Op::%s(op, ..)" % (fname, ctor))
         else:
